@@ -31,12 +31,12 @@ def evaluate(case, res):
             if [l for l in seg.out_lines() if session.MSG_LINE.match(l)] and not k.startswith('list'):
                 res.bad('command-prints-message-lines', '%r printed %r' % (seg.text, seg.out_lines()[:3]))
     # everything is recorded, shown or not, in arrival order
-    expected_all = [wire.render(m, case.get('dialect', 'new')) for m in case['specs']]
-    if len(s.ctl.all_messages) != len(case['specs']):
-        res.bad('record-incomplete', '%d recorded, %d arrived' % (len(s.ctl.all_messages), len(case['specs'])))
+    nlines = sum(1 for i in case['items'] if i[0] == 'line')
+    if len(s.ctl.all_messages) != nlines:
+        res.bad('record-incomplete', '%d recorded, %d arrived' % (len(s.ctl.all_messages), nlines))
     per_conn = {}
     for m in s.ctl.all_messages:
-        per_conn.setdefault(m.obj.connection.name(), []).append(m)
+        per_conn.setdefault(w.conn_of.get(id(m)), []).append(m)
     for c in s.cm.connections():
         if list(c.messages()) != per_conn.get(c.name(), []):
             res.bad('connection-record-differs', 'Connection.messages() of %s is not its messages in arrival order' % c.name())
@@ -47,8 +47,8 @@ def evaluate(case, res):
     listed = [l for l in s.out.buffer[n1:].split('\n')[:-1] if session.MSG_LINE.match(l)]
     if listed != session.render_shown(s.ctl.all_messages):
         res.bad('list-star-is-not-the-record', '%d listed, %d recorded' % (len(listed), len(s.ctl.all_messages)))
-    if len(listed) != len(case['specs']):
-        res.bad('list-star-incomplete', '%d listed, %d arrived' % (len(listed), len(case['specs'])))
+    if len(listed) != nlines:
+        res.bad('list-star-incomplete', '%d listed, %d arrived' % (len(listed), nlines))
     return w
 
 
